@@ -154,4 +154,107 @@ theorem event_needs_own_topic (e : Entry) (topics : List Bytes) (data : Bytes) (
   · cases h
   · cases h
 
+/-! ### where each event value comes from -/
+
+/-- the property's reading of an event log: walking the inputs in order, an indexed input takes the next topic
+    (decoded if it is a fixed-size elementary type, raw otherwise), a non-indexed input takes the next data value -/
+def specEvent : List Param → List Ty → List Bytes → List CV → Option (List CV)
+  | p :: ps, t :: ts, topics, ds =>
+    if p.indexed then
+      match topics with
+      | [] => none
+      | tp :: rest =>
+        match topicToValue t tp with
+        | .ok v => (specEvent ps ts rest ds).map (v :: ·)
+        | _ => none
+    else
+      match ds with
+      | d :: ds' => (specEvent ps ts topics ds').map (d :: ·)
+      | [] => none
+  | _, _, _, _ => some []
+
+/-- the types whose values come from the data part: the non-indexed inputs, in order -/
+def dataTypes : List Param → List Ty → List Ty
+  | p :: ps, t :: ts => if p.indexed then dataTypes ps ts else t :: dataTypes ps ts
+  | _, _ => []
+
+/-- **Event values are taken from the right place.** What `eventWalk` + `fillFromData` assemble is exactly the
+    property's reading: indexed values from their topics in order, the others from the decoded data in order, each at
+    its original position; and the data part is decoded against exactly the non-indexed types. -/
+theorem event_values_by_position : ∀ (ps : List Param) (ts : List Ty) (topics : List Bytes) (slots : List (Option CV))
+    (dts : List Ty) (ds : List CV), eventWalk ps ts topics = .ok (slots, dts) → ds.length = dts.length →
+    dts = dataTypes ps ts ∧ specEvent ps ts topics ds = some (fillFromData slots ds) := by
+  intro ps
+  induction ps with
+  | nil =>
+    intro ts topics slots dts ds h hl
+    simp only [eventWalk] at h
+    injection h with h; injection h with h1 h2
+    subst h1 h2
+    simp [dataTypes, specEvent, fillFromData]
+  | cons p ps ih =>
+    intro ts topics slots dts ds h hl
+    cases ts with
+    | nil =>
+      simp only [eventWalk] at h
+      injection h with h; injection h with h1 h2
+      subst h1 h2
+      simp [dataTypes, specEvent, fillFromData]
+    | cons t ts =>
+      have heq : eventWalk (p :: ps) (t :: ts) topics =
+          (if p.indexed then
+            match topics with
+            | [] => .err
+            | topic :: rest =>
+              match topicToValue t topic with
+              | .ok v => (eventWalk ps ts rest).map fun (vs, dts) => (some v :: vs, dts)
+              | .err => .err
+              | .panic => .panic
+          else (eventWalk ps ts topics).map fun (vs, dts) => (none :: vs, t :: dts)) := by
+        simp only [eventWalk]
+        split <;> rfl
+      rw [heq] at h
+      by_cases hi : p.indexed = true
+      · rw [if_pos hi] at h
+        cases topics with
+        | nil => cases h
+        | cons tp rest =>
+          simp only [] at h
+          cases hv : topicToValue t tp with
+          | err => rw [hv] at h; cases h
+          | panic => rw [hv] at h; cases h
+          | ok v =>
+            rw [hv] at h
+            simp only [] at h
+            cases hr : eventWalk ps ts rest with
+            | err => rw [hr] at h; cases h
+            | panic => rw [hr] at h; cases h
+            | ok q =>
+              rw [hr] at h
+              obtain ⟨vs, dts'⟩ := q
+              simp only [Outcome.map] at h
+              injection h with h; injection h with h1 h2
+              subst h1 h2
+              obtain ⟨i1, i2⟩ := ih ts rest vs dts' ds hr hl
+              constructor
+              · simp only [dataTypes, hi, if_true]; exact i1
+              · simp only [specEvent, hi, if_true, hv, i2, Option.map_some, fillFromData]
+      · rw [if_neg hi] at h
+        cases hr : eventWalk ps ts topics with
+        | err => rw [hr] at h; cases h
+        | panic => rw [hr] at h; cases h
+        | ok q =>
+          rw [hr] at h
+          obtain ⟨vs, dts'⟩ := q
+          simp only [Outcome.map] at h
+          injection h with h; injection h with h1 h2
+          subst h1 h2
+          cases ds with
+          | nil => simp at hl
+          | cons d ds' =>
+            obtain ⟨i1, i2⟩ := ih ts topics vs dts' ds' hr (by simpa using hl)
+            constructor
+            · simp only [dataTypes, hi, Bool.false_eq_true, if_false, i1]
+            · simp only [specEvent, hi, Bool.false_eq_true, if_false, i2, Option.map_some, fillFromData]
+
 end FFS.Props.C12
